@@ -17,4 +17,9 @@ with open(os.path.join(ROOT, "oracle", "mask_snapshot.json"), "w") as f:
     json.dump(kani_masks.snapshot_now(), f, indent=0, sort_keys=True)
 with open(os.path.join(ROOT, "oracle", "reflect_caps_snapshot.json"), "w") as f:
     json.dump(lift_caps.snapshot_now(), f, indent=0, sort_keys=True)
+from units.lift_reflect import lift as _lift  # noqa: E402
+_e, _m = _lift()
+with open(os.path.join(ROOT, "oracle", "reflect_params_snapshot.json"), "w") as f:
+    json.dump({"enums": {K: {e: [list(x) for x in ops] for e, ops in t.items()} for K, t in _e.items()},
+               "masks": {K: [[list(fl), [list(x) for x in ops]] for fl, ops in gs] for K, gs in _m.items()}}, f, indent=0, sort_keys=True)
 print("frozen")
